@@ -11,10 +11,24 @@ def run(cmd, cwd):
     p = subprocess.run(cmd, cwd=cwd, env=env, capture_output=True, text=True)
     return p.returncode, (p.stdout + p.stderr)[-3000:]
 
+def run_demo(demo, wc):
+    """a demonstration is an integration test (tests/demo_x.rs) or a shell script run in the copy"""
+    if demo.endswith(".sh"):
+        shutil.copy(demo, wc + "/" + os.path.basename(demo))
+        env = dict(os.environ, CARGO_NET_OFFLINE="true", CARGO_TARGET_DIR=os.path.join(wc, "target"), WORKTREE=wc)
+        p = subprocess.run(["sh", os.path.basename(demo)], cwd=wc, env=env, capture_output=True, text=True)
+        return p.returncode
+    os.makedirs(wc + "/tests", exist_ok=True)
+    shutil.copy(demo, wc + "/tests/" + os.path.basename(demo))
+    r = run(["cargo", "test", "--offline", "--test", os.path.basename(demo)[:-3]], wc)
+    os.remove(wc + "/tests/" + os.path.basename(demo))
+    return r[0] if isinstance(r, tuple) else r
+
+
 def main():
     only = [a for a in sys.argv[1:] if not a.startswith("--")]
-    for d in sorted(glob.glob("/tmp/mut-C*/OUT/*") + glob.glob("/tmp/mut2-C*/OUT/*") + glob.glob("/tmp/mut3-C*/OUT/*")):
-        pid = d.split("/")[2].replace("mut3-", "").replace("mut2-", "").replace("mut-", "")
+    for d in sorted(glob.glob("/tmp/mut-C*/OUT/*") + glob.glob("/tmp/mut2-C*/OUT/*") + glob.glob("/tmp/mut3-C*/OUT/*") + glob.glob("/tmp/mut4-C*/OUT/*")):
+        pid = d.split("/")[2].replace("mut4-", "").replace("mut3-", "").replace("mut2-", "").replace("mut-", "")
         x = os.path.basename(d)
         sid = "%s-%s" % (pid, x)
         if only and sid not in only:
@@ -29,17 +43,13 @@ def main():
         wc = tempfile.mkdtemp(prefix="seed-", dir=CACHE)
         try:
             subprocess.run(["rsync", "-a", "--exclude", "/target", "--exclude", "/.git", "/repo/", wc + "/"], check=True)
-            os.makedirs(wc + "/tests", exist_ok=True)
-            shutil.copy(demo, wc + "/tests/" + os.path.basename(demo))
-            tname = os.path.basename(demo)[:-3]
-            rc0, out0 = run(["cargo", "test", "--offline", "--test", tname], wc)
-            os.remove(wc + "/tests/" + os.path.basename(demo))
+            tname = os.path.basename(demo)
+            rc0 = run_demo(demo, wc)
             rc = subprocess.run(["patch", "-p1", "-s", "-i", d + "/patch.diff"], cwd=wc).returncode
             if rc != 0:
                 print(sid, "patch does not apply"); continue
             rc1, out1 = run(["cargo", "test", "--offline"], wc)
-            shutil.copy(demo, wc + "/tests/" + os.path.basename(demo))
-            rc2, out2 = run(["cargo", "test", "--offline", "--test", tname], wc)
+            rc2 = run_demo(demo, wc)
             ok = (rc0 == 0 and rc1 == 0 and rc2 != 0)
             print(sid, "demo clean:", rc0, "suite with patch:", rc1, "demo with patch:", rc2, "=> CONFIRMED" if ok else "=> REJECTED")
             if ok and not os.path.exists(os.path.join(dest, "meta.json")):
